@@ -144,11 +144,50 @@ type stores struct {
 	cs   *pb.ConfState
 }
 
+// groupIds: the ids of the groups of history hid.  Fresh per history (all histories share one database), but
+// not always two unrelated random ids: the server keeps the zero group (uuid.Nil) next to partition groups in one
+// database, and "groups never see each other's data" must hold for ids that differ in a single byte at either
+// end of the key, wherever the key layout puts the id.
+var storeSeq int
+
+func groupIds(db *badger.DB, groups []string) map[string]uuid.UUID {
+	storeSeq++
+	out := map[string]uuid.UUID{}
+	base := uuid.NewV4()
+	for i, g := range groups {
+		id := base
+		switch storeSeq % 6 {
+		case 0, 3:
+			id = uuid.NewV4()
+		case 1: // differ only in the last byte
+			id[15] = byte(i)
+		case 2: // differ only in the first byte
+			id[0] = byte(i)
+		case 4: // differ only in the last but one byte, 0xff / 0xfe at the end
+			id[14] = byte(0xff - i)
+			id[15] = 0xff
+		case 5: // differ only in byte 13
+			id[13] = byte(i * 16)
+		}
+		out[g] = id
+	}
+	if storeSeq%101 == 7 { // the zero group's id and its neighbour
+		if err := db.DropAll(); err != nil {
+			panic(err)
+		}
+		for i, g := range groups {
+			id := uuid.Nil
+			id[15] = byte(i)
+			out[g] = id
+		}
+	}
+	return out
+}
+
 func newStores(db *badger.DB, groups []string) *stores {
-	s := &stores{db: db, gids: map[string]uuid.UUID{}, bw: map[string]wal.WAL{}, ms: map[string]*etcdRaft.MemoryStorage{},
+	s := &stores{db: db, gids: groupIds(db, groups), bw: map[string]wal.WAL{}, ms: map[string]*etcdRaft.MemoryStorage{},
 		cs: &pb.ConfState{Nodes: []uint64{1}}}
 	for _, g := range groups {
-		s.gids[g] = uuid.NewV4()
 		s.bw[g] = wal.NewBadgerWAL(db, s.gids[g])
 		s.ms[g] = etcdRaft.NewMemoryStorage()
 	}
